@@ -51,7 +51,10 @@ Theorem C20_abstract_singleton : forall (r : nat) (n : N) (sched : list ev),
 Proof. exact abstract_singleton. Qed.
 Print Assumptions C20_abstract_singleton.
 
-(* Unix socket PATH with the lock (the code after the fix of finding S11), with or without a stale socket
+(* The lock on <path>.lock is owned by the listener (net::LockedUnixListener, fix of finding C20-S21): it is held
+   exactly while the server listens, which is what the model's `lock` field means — a server that has entered its
+   shutdown phase (ServerLife.Draining) counts as exited here, and a fresh server may take the path over.
+   Unix socket PATH with the lock (the code after the fix of finding S11), with or without a stale socket
    file lying around.  (1)-(4) as above for every schedule.  (5) needs, besides "no start-up time-out",
    that no client ran out of connect retries: a loser's client may poll while the lock holder has not yet
    bound (see C20_uds_retry_needs_timing); so (5) is stated for runs in which no client failed. *)
@@ -162,7 +165,9 @@ Proof.
 Qed.
 Print Assumptions C20_started_server_report_proceeds.
 
-(* After a stop request has been polled — during the whole shutdown phase, while in-flight requests finish, and
+(* On a Unix socket PATH this relies on the lock being released with the listener (C20-S21, fixed by 13fa361): while
+   the old process still runs, the fresh server gets the lock, unlinks the dead socket file and binds.
+   After a stop request has been polled — during the whole shutdown phase, while in-flight requests finish, and
    after termination — the address is no longer served by this server: a client that arrives is REFUSED (it is
    not queued behind a listener nobody accepts from), no connection is ever added, and by the start-up table the
    late client cold-starts a fresh server for the same address (any spelling) and proceeds. *)
